@@ -87,6 +87,11 @@ PREFIX_POOL = ["a", "ab", "a_b", "b", "ba", "abc", "aa", "c", "ca", "d", "da", "
 def random_world(rng: random.Random, n_modules=None, n_imports=None, depth=4, leaf_importers=False, pool=None):
     n = n_modules or rng.randint(8, 30)
     mods = random_tree(rng, n, depth, pool=pool)
+    if rng.random() < 0.4:
+        # what a scanned tree looks like: some packages have an '__init__' module, a module like any other (an import
+        # made by X.__init__ is an import made by a sub module of X)
+        inner = sorted({m[:i] for m in mods for i in range(1, len(m))})
+        mods = sorted(set(mods) | {p + ("__init__",) for p in inner if rng.random() < 0.35})
     w = World(mods, [])
     cand = candidate_imports(mods, importers=w.leaves() if leaf_importers else None)
     k = min(len(cand), n_imports if n_imports is not None else rng.randint(0, 60))
